@@ -60,11 +60,14 @@ Definition mkl (ns : list str) (fn : nat) (idx : list N) : loc :=
 Lemma cur_loc_mkl s : cur_loc s = mkl (cs_ns s) (cs_fn s) (cs_idx s).
 Proof. reflexivity. Qed.
 
-(* [r] is an execution of process_card on a card of [cards], at the index that designates it *)
-Definition run_ok (cards : list card) (ns : list str) (fn : nat) (r : run) : Prop :=
+(* [r] is an execution of process_card on a card of [cards], at the index that designates it; it is a part of
+   the computation between the traces [tlo] and [thi] (the trace only grows at its head): its start state has
+   recorded at least [tlo], and everything its end state has recorded is in [thi] *)
+Definition run_ok (cards : list card) (ns : list str) (fn : nat) (tlo thi : list (N * loc)) (r : run) : Prop :=
   exists ctx s1 s2,
     at_ctx cards (r_idx r) (r_card r :: ctx) /\ cs_idx s1 = r_idx r /\ cs_ns s1 = ns /\ cs_fn s1 = fn /\
-    process_card (r_card r) s1 = ROk tt s2 /\ cs_pc s1 = r_lo r /\ cs_pc s2 = r_hi r.
+    process_card (r_card r) s1 = ROk tt s2 /\ cs_pc s1 = r_lo r /\ cs_pc s2 = r_hi r /\
+    (exists mid, cs_trace s1 = mid ++ tlo) /\ (exists later, thi = later ++ cs_trace s2).
 
 Definition in_run (r : run) (a : N) : Prop := r_lo r <= a < r_hi r.
 
@@ -98,8 +101,9 @@ Definition attr (runs : list run) (allowed : list (list N * bool)) (ns : list st
    \/ ((forall r, In r runs -> ~ in_run r a) /\
        exists i mc, In (i, mc) allowed /\ l = mkl ns fn i /\ (b = true -> mc = true))).
 
-Definition runs_in (cards : list card) (ns : list str) (fn : nat) (lo hi : N) (runs : list run) : Prop :=
-  Forall (fun r => run_ok cards ns fn r /\ lo <= r_lo r /\ r_lo r <= r_hi r /\ r_hi r <= hi) runs.
+Definition runs_in (cards : list card) (ns : list str) (fn : nat) (lo hi : N) (tlo thi : list (N * loc))
+           (runs : list run) : Prop :=
+  Forall (fun r => run_ok cards ns fn tlo thi r /\ lo <= r_lo r /\ r_lo r <= r_hi r /\ r_hi r <= hi) runs.
 
 (* ------------------------------------------------------------------ the triple *)
 Definition JB {A} (cards : list card) (idx : list N) (ctx : list card) (idx' : list N) (ctx' : list card)
@@ -113,7 +117,7 @@ Definition JB {A} (cards : list card) (idx : list N) (ctx : list card) (idx' : l
          exists newx runs,
            cs_trace s' = map fst newx ++ cs_trace s /\
            addrs (cs_code s') (cs_pc s') = map xaddr newx ++ addrs (cs_code s) (cs_pc s) /\
-           runs_in cards (cs_ns s) (cs_fn s) (cs_pc s) (cs_pc s') runs /\
+           runs_in cards (cs_ns s) (cs_fn s) (cs_pc s) (cs_pc s') (cs_trace s) (cs_trace s') runs /\
            Forall (attr runs allowed (cs_ns s) (cs_fn s) (cs_pc s) (cs_pc s')) newx)
     | _ => True
     end.
@@ -124,11 +128,16 @@ Proof.
   repeat split; constructor.
 Qed.
 
-Lemma runs_in_widen cards ns fn lo hi lo' hi' runs :
-  lo' <= lo -> hi <= hi' -> runs_in cards ns fn lo hi runs -> runs_in cards ns fn lo' hi' runs.
+Lemma runs_in_widen cards ns fn lo hi lo' hi' tlo thi tlo' thi' runs :
+  lo' <= lo -> hi <= hi' -> (exists x, tlo = x ++ tlo') -> (exists y, thi' = y ++ thi) ->
+  runs_in cards ns fn lo hi tlo thi runs -> runs_in cards ns fn lo' hi' tlo' thi' runs.
 Proof.
-  intros H1 H2 H. unfold runs_in in *. rewrite Forall_forall in *. intros r Hr.
-  destruct (H r Hr) as (a & b & c & d). repeat split; auto; lia.
+  intros H1 H2 [x Hx] [y Hy] H. unfold runs_in in *. rewrite Forall_forall in *. intros r Hr.
+  destruct (H r Hr) as ((ctx & s1 & s2 & q1 & q2 & q3 & q4 & q5 & q6 & q7 & [mid q8] & [later q9]) & b & c & d).
+  split; [|repeat split; lia].
+  exists ctx, s1, s2. repeat (split; [assumption|]). split.
+  - exists (mid ++ x). rewrite q8, Hx, app_assoc. reflexivity.
+  - exists (y ++ later). rewrite Hy, q9, app_assoc. reflexivity.
 Qed.
 
 (* entries below [mid] keep their attribution when runs that start at or above [mid] are added, and
@@ -171,7 +180,9 @@ Proof.
   rewrite Hns1, Hfn1 in Hr2, Hx2.
   exists (n2 ++ n1), (r1 ++ r2). rewrite !map_app, <- !app_assoc.
   split; [rewrite Ht2, Ht1; reflexivity|]. split; [rewrite Ha2, Ha1; reflexivity|]. split.
-  - apply Forall_app. split; [eapply runs_in_widen; [| |exact Hr1] | eapply runs_in_widen; [| |exact Hr2]]; lia.
+  - apply Forall_app. split.
+    + eapply runs_in_widen; [| | | |exact Hr1]; [lia | lia | exists []; reflexivity | exists (map fst n2); exact Ht2].
+    + eapply runs_in_widen; [| | | |exact Hr2]; [lia | lia | exists (map fst n1); exact Ht1 | exists []; reflexivity].
   - apply Forall_app. split.
     + eapply Forall_impl; [|exact Hx2]. intros x Hx. eapply attr_extend_l; [exact Hle1| |exact Hx].
       intros r Hr. unfold runs_in in Hr1. rewrite Forall_forall in Hr1. destruct (Hr1 r Hr) as (_ & _ & _ & H). exact H.
@@ -297,7 +308,8 @@ Proof.
   set (self := mkrun idx c (cs_pc s) (cs_pc s')).
   exists n, (self :: runs). split; [exact Ht|]. split; [exact Ha|]. split.
   - constructor; [|exact Hr]. cbn [r_lo r_hi self]. split; [|lia].
-    exists ctx, s, s'. cbn [r_idx r_card r_lo r_hi self]. rewrite <- Hi in Hat. rewrite Hi. rewrite Hi in Hat. auto 10.
+    exists ctx, s, s'. cbn [r_idx r_card r_lo r_hi self].
+    repeat (split; [solve [auto]|]). split; exists []; reflexivity.
   - eapply Forall_impl; [|exact Hx]. intros [[a l] b] (Hrg & Hx1). cbn [fst snd] in *. split; [exact Hrg|].
     left. destruct Hx1 as [(r & (Hin & Hir & Hd) & Ho)|(Hout & i & mc & Hin & Hl & Hb)].
     + exists r. split; [|exact Ho]. split; [right; exact Hin|]. split; [exact Hir|].
